@@ -98,7 +98,9 @@ def detect(ids):
             errs, title = (r[5] if len(r) > 5 else ""), (r[6] if len(r) > 6 else "")
             new[sid] = f"| {sid} | {own} | {verdict} | {fired or '-'} | {errs or '-'} | {title.replace('|', '/')} | `{diag[:200].replace('|', '/')}` |"
         lines = (root / "RESULTS.md").read_text().splitlines()
+        present = {l.split("|")[1].strip() for l in lines if l.startswith("| ") and l.count("|") > 6}
         lines = [new.get(l.split("|")[1].strip(), l) if l.startswith("| ") and l.count("|") > 6 else l for l in lines]
+        lines += [row for sid, row in sorted(new.items()) if sid not in present]
         (root / "RESULTS.md").write_text("\n".join(lines) + "\n")
     if not sys.argv[2:]:
         with open(root / "RESULTS.md", "w") as f:
